@@ -25,7 +25,18 @@ func (m *ModbusTCPAssembler) ReceiveRead(ctx context.Context, received []byte, b
 		if err == packet.ErrTCPDataTooShort {
 			return response, false // wait for more data to arrive
 		} else if err != nil {
-			return append(response, err.(*packet.ErrorParseTCP).Bytes()...), false
+			if n > 0 && m.received.Len() < n {
+				return response, false // wait for rest of the packet to arrive, it is refused when it is complete
+			}
+			response = append(response, err.(*packet.ErrorParseTCP).Bytes()...)
+			if n == 0 {
+				// not Modbus TCP data: there is no packet boundary to continue from. discard buffered bytes so
+				// the same bytes are not refused again with every following read
+				m.received.Reset()
+				return response, false
+			}
+			m.received.Next(n) // refused packet has been answered, continue with the bytes following it
+			continue
 		}
 		if m.received.Len() < n {
 			return response, false // wait for rest of the packet to arrive
